@@ -352,6 +352,30 @@ static void check_irreducible_factor(const std::string &key, const V &g)
     }
 }
 
+// The Lean driver appends the verdicts of its proven-sound certificate checks to factorisation
+// lines; the expected verdicts are "#ok" (multiply-back accepted) and "#irr" (every factor passed
+// brute-force irreducibility) or "#irr?" (some factor needs more than 3000 trial divisions).
+static bool brute_small(const V &g)
+{
+    size_t d = g.size() < 2 ? 0 : g.size() - 1;
+    double cost = 0, pw = 1;
+    for (size_t k = 1; k <= d / 2; k++) {
+        pw *= (double)P;
+        cost += pw;
+        if (cost > 3000)
+            return false;
+    }
+    return true;
+}
+template <class It>
+static std::string irr_flag(It b, It e)
+{
+    for (It i = b; i != e; ++i)
+        if (!brute_small(*i))
+            return "#irr?";
+    return "#irr";
+}
+
 // the square-free decomposition property (for the monic associate of f)
 static void check_sqf_list(const V &f, const TaggedVec &l)
 {
@@ -595,7 +619,7 @@ static std::string run_op(const std::string &op, const std::vector<V> &raw)
     if (op == "sqf_list" && na == 1) {
         TaggedVec l = g[0].gf_sqf_list();
         check_sqf_list(a[0], l);
-        return show_tagged(l);
+        return show_tagged(l) + "#ok";
     }
     if (op == "sqf_part" && na == 1) {
         GaloisFieldDict r = g[0].gf_sqf_part();
@@ -638,12 +662,18 @@ static std::string run_op(const std::string &op, const std::vector<V> &raw)
     if (op == "facz" && na == 1) {
         auto s = g[0].gf_zassenhaus();
         check_full_factors(op, a[0], s);
-        return show_set(s);
+        std::vector<V> fv;
+        for (auto &x : s)
+            fv.push_back(from_gf(x));
+        return show_set(s) + "#ok" + irr_flag(fv.begin(), fv.end());
     }
     if (op == "facs" && na == 1) {
         auto s = g[0].gf_shoup();
         check_full_factors(op, a[0], s);
-        return show_set(s);
+        std::vector<V> fv;
+        for (auto &x : s)
+            fv.push_back(from_gf(x));
+        return show_set(s) + "#ok" + irr_flag(fv.begin(), fv.end());
     }
     if (op == "factor" && na == 1) {
         auto r = g[0].gf_factor();
@@ -653,8 +683,10 @@ static std::string run_op(const std::string &op, const std::vector<V> &raw)
         V prod(1, lc);
         prod = r_norm(prod);
         TaggedVec l;
+        std::vector<V> fv;
         for (auto &it : r.second) {
             V gv = from_gf(it.first);
+            fv.push_back(gv);
             check_irreducible_factor(op, gv);
             if (it.second == 0)
                 fail(op, "multiplicity 0");
@@ -663,7 +695,7 @@ static std::string run_op(const std::string &op, const std::vector<V> &raw)
         }
         if (prod != a[0])
             fail(op, "lc * product " + show(prod) + " differs from input " + show(a[0]));
-        return std::to_string(lc) + "|" + show_tagged(l);
+        return std::to_string(lc) + "|" + show_tagged(l) + "#ok" + irr_flag(fv.begin(), fv.end());
     }
     return "bad-op";
 }
